@@ -416,6 +416,21 @@ class HexRunner:
                 self.res.tags.add("reopened" + (":blank-root" if not self.model else ""))
             if op[0] == "batch":
                 self.batch(op[1], op[2])
+            elif op[0] == "failfirst":
+                # the FIRST database write of this operation is refused (needs a FailingDict): nothing was written or counted
+                # before it, so the operation must leave root, database and reference counts as they were
+                self.db.fail_after = 0
+                self.res.emit("hx.failafter 0", "ok")
+                if self.free_sync:
+                    self.res.emit("hx.ffailafter 0", "ok")
+                out = self.simple("0", self.trie, self.model, op[1])
+                self.db.fail_after = None
+                self.res.emit("hx.failafter none", "ok")
+                if self.free_sync:
+                    self.res.emit("hx.ffailafter none", "ok")
+                self.res.tags.add("first-write-refused:" + ("hit" if out != "ok" else "operation-writes-nothing"))
+                if self.observe:
+                    self.observe(self, "0", self.trie, self.model)
             else:
                 self.simple("0", self.trie, self.model, op)
                 if self.observe:
